@@ -23,7 +23,7 @@
 (* IOEnv: CT_TIER "quick" | "thorough", CT_OUT (file, "" = none),           *)
 (* CT_VOUT_TRUNC "true" | "false" (behaviour switch of the model)          *)
 (***************************************************************************)
-EXTENDS CommitTx, Json, IOUtils, SequencesExt, FiniteSetsExt
+EXTENDS CommitTx, Json, IOUtils, SequencesExt, FiniteSetsExt, Randomization
 
 Thorough == IOEnv.CT_TIER = "thorough"
 SW == [voutTruncated |-> IOEnv.CT_VOUT_TRUNC = "true"]
@@ -184,9 +184,21 @@ WsMutants(S, U) ==
   \cup {WsMut("field", j, 0, "h", "none", U[j].h + 1, "sub") : j \in {x \in P : U[x].tp \in HtlcTps}}
   \cup {WsMut("droplast", 0, 0, "none", "none", 0, "sub"), WsMut("extra", 0, 0, "none", "none", 0, "sub")}
 
-Pair(m, w) == [m |-> m, w |-> w]
+Pair(m, w) == [m |-> m, m2 |-> NoMut, w |-> w]
+Pair2(m, m2) == [m |-> m, m2 |-> m2, w |-> NoWsMut]
 \* a field mutation with the witness scripts of the CANONICAL outputs (they no longer hash to the output)
 StaleWs(ms) == {Pair(m, [NoWsMut EXCEPT !.base = "canon"]) : m \in {x \in ms : x.k = "out" /\ ~x.rs}}
+
+\* PAIRS of mutations (a broken rule must not mask another): fixed pairs of a header field with an
+\* output field, and all pairs within a random sample of the single mutations (TLC's -seed = VERIF_SEED)
+Simple(ms) == {m \in ms : m.k \in {"out", "ver", "lt", "seq", "op", "ss", "wit"} /\ ~m.rs}
+Compatible(a, b) == a # b /\ ~(a.k = b.k /\ a.p = b.p /\ (a.k # "out" \/ a.f = b.f))
+PairMuts(S, C, U, om) ==
+  LET hs == {Mut("ver", 0, 0, "none", "none", 3), Mut("lt", 0, 0, "lo", "none", 1), Mut("seq", 0, 0, "lo", "none", 1)}
+      os == {m \in om : m.k = "out" /\ m.f \in {"d", "h", "k1"} /\ m.x \in {"none", "x1"} /\ ~m.rs}
+      R  == RandomSubset(IF Thorough THEN 12 ELSE 5, Simple(om \cup HeaderMutants(S, C))) IN
+     {Pair2(h, o) : h \in hs, o \in os}
+  \cup {Pair2(p[1], p[2]) : p \in {q \in R \X R : Compatible(q[1], q[2])}}
 
 FullMuts(S, C, U) ==
   LET om == UNION {OutMutants(S, U, j) : j \in DOMAIN U}
@@ -196,6 +208,7 @@ FullMuts(S, C, U) ==
   \cup {Pair(NoMut, w) : w \in WsMutants(S, U)}
   \cup (IF Thorough THEN StaleWs(om)
         ELSE StaleWs({m \in om : m.f \in {"d", "k2", "h"} /\ (m.x \in {"none", "x1"})}))
+  \cup PairMuts(S, C, U, om)
 LightMuts(S, C, U) ==
      {Pair(NoMut, NoWsMut)}
   \cup {Pair(m, NoWsMut) : m \in HeaderMutants(S, C)}
@@ -223,7 +236,8 @@ BaseSeq == TLCEval([i \in DOMAIN BaseSeq0 |->
               [b |-> i, S |-> BaseSeq0[i].S, name |-> BaseSeq0[i].name, C |-> BaseSeq0[i].C, pre |-> BaseSeq0[i].pre,
                hist |-> BaseSeq0[i].hist, outs |-> BaseSeq0[i].outs,
                muts |-> [k \in DOMAIN BaseSeq0[i].ms |->
-                           [id |-> Offs[i] + k, m |-> BaseSeq0[i].ms[k].m, w |-> BaseSeq0[i].ms[k].w]]]])
+                           [id |-> Offs[i] + k, m |-> BaseSeq0[i].ms[k].m, m2 |-> BaseSeq0[i].ms[k].m2,
+                            w |-> BaseSeq0[i].ms[k].w]]]])
 NB == Len(BaseSeq)
 NCases == IF NB = 0 THEN 0 ELSE Offs[NB] + Len(BaseSeq[NB].muts)
 
@@ -245,10 +259,11 @@ CaseOf(bi, mi) ==
   LET b  == BaseSeq[bi]
       cn == ModelCanon(b)
       m  == AtPos(b.muts[mi].m, cn.outs, b.outs)
+      m2 == AtPos(b.muts[mi].m2, cn.outs, b.outs)
       w  == AtPosW(b.muts[mi].w, cn.outs, b.outs)
-      tx == Mutate(cn, m, b.S, b.C, ModelSk)
+      tx == Mutate(Mutate(cn, m, b.S, b.C, ModelSk), m2, b.S, b.C, ModelSk)
       ws == WsFor(tx, cn, w) IN
-  [b |-> b, canon |-> cn, m |-> m, w |-> w, tx |-> tx, ws |-> ws, pool |-> RangeOf(cn.outs)]
+  [b |-> b, canon |-> cn, m |-> m, m2 |-> m2, w |-> w, tx |-> tx, ws |-> ws, pool |-> RangeOf(cn.outs)]
 
 VARIABLES bi, mi, last
 vars == <<bi, mi, last>>
@@ -269,8 +284,8 @@ Next == /\ mi = 0
                     \* what the code signs is what was submitted, and for the canonical request it is
                     \* what the semantic entry point signs
                     signed_ok |-> r.tag = "ok" => /\ TxBV(r.signed) = TxBV(c.tx)
-                                                  /\ (c.m.k = "none" => TxBV(r.signed) = TxBV(SemOf(c.b).signed)),
-                    canon_req |-> c.m.k = "none" /\ c.w.k = "none"]
+                                                  /\ (c.m.k = "none" /\ c.m2.k = "none" => TxBV(r.signed) = TxBV(SemOf(c.b).signed)),
+                    canon_req |-> c.m.k = "none" /\ c.m2.k = "none" /\ c.w.k = "none"]
 Spec == Init /\ [][Next]_vars
 
 \* C04 on the model: nothing non-canonical is accepted; what is signed is the submitted = canonical
